@@ -7,7 +7,7 @@ import jax.random as jrandom
 from flowjax.train import fit_to_data
 
 from ...transforms import IdentityTransform
-from ...utils import decode_dtype, encode_dtype, resolve_dtype
+from ...utils import asarray, decode_dtype, encode_dtype, resolve_dtype
 from ..base import Flow
 from .utils import get_flow
 
@@ -74,8 +74,8 @@ class FlowJax(Flow):
         x_prime, log_abs_det_jacobian = self.rescale(x)
         x_prime = jnp.asarray(x_prime, dtype=self.dtype)
         z, log_abs_det_jacobian_flow = self._flow.forward(x_prime)
-        return xp.asarray(z), xp.asarray(
-            log_abs_det_jacobian + log_abs_det_jacobian_flow
+        return asarray(z, xp), asarray(
+            log_abs_det_jacobian + log_abs_det_jacobian_flow, xp
         )
 
     def inverse(self, z, xp: Callable = jnp):
@@ -83,8 +83,8 @@ class FlowJax(Flow):
         x_prime, log_abs_det_jacobian_flow = self._flow.inverse(z)
         x_prime = jnp.asarray(x_prime, dtype=self.dtype)
         x, log_abs_det_jacobian = self.inverse_rescale(x_prime)
-        return xp.asarray(x), xp.asarray(
-            log_abs_det_jacobian + log_abs_det_jacobian_flow
+        return asarray(x, xp), asarray(
+            log_abs_det_jacobian + log_abs_det_jacobian_flow, xp
         )
 
     def log_prob(self, x, xp: Callable = jnp):
@@ -92,20 +92,20 @@ class FlowJax(Flow):
         x_prime, log_abs_det_jacobian = self.rescale(x)
         x_prime = jnp.asarray(x_prime, dtype=self.dtype)
         log_prob = self._flow.log_prob(x_prime)
-        return xp.asarray(log_prob + log_abs_det_jacobian)
+        return asarray(log_prob + log_abs_det_jacobian, xp)
 
     def sample(self, n_samples: int, xp: Callable = jnp):
         self.key, subkey = jrandom.split(self.key)
         x_prime = self._flow.sample(subkey, (n_samples,))
         x = self.inverse_rescale(x_prime)[0]
-        return xp.asarray(x)
+        return asarray(x, xp)
 
     def sample_and_log_prob(self, n_samples: int, xp: Callable = jnp):
         self.key, subkey = jrandom.split(self.key)
         x_prime = self._flow.sample(subkey, (n_samples,))
         log_prob = self._flow.log_prob(x_prime)
         x, log_abs_det_jacobian = self.inverse_rescale(x_prime)
-        return xp.asarray(x), xp.asarray(log_prob - log_abs_det_jacobian)
+        return asarray(x, xp), asarray(log_prob - log_abs_det_jacobian, xp)
 
     def save(self, h5_file, path="flow"):
         import equinox as eqx
